@@ -135,7 +135,9 @@ def run_units(uids, overrides=None, procs=None):
     if len(uids) == 1 or procs == 1:
         return [_worker((u, overrides)) for u in uids]
     ctx = mp.get_context('fork')
-    with ctx.Pool(procs) as pool:
+    # one fresh process per unit: the z3 context of a worker (AST numbering, hence solver heuristics) must not depend on which
+    # units happened to run in it before, or a fragile obligation flips with every unit that is added to the registry
+    with ctx.Pool(procs, maxtasksperchild=1) as pool:
         return pool.map(_worker, [(u, overrides) for u in uids], chunksize=1)
 
 
